@@ -1,5 +1,6 @@
 From Coq Require Import List NArith Bool.
 From V.C11 Require Import Model Proofs.
+From V.C11 Require HSModel HSProofs.
 Import ListNotations.
 Open Scope N_scope.
 From V.C11 Require Import Properties.
@@ -150,3 +151,26 @@ Check (C11_lazy_notification_in_its_period :
     Forall not_notif (lq l) -> lstep c cap l LPoll = Some (l', ev, cl) -> In (UNotif p) ev ->
     snd (fst (poll_events cap (ls l) (lq l))) = None /\
     exists k, In (p, k) (lnf l) /\ hopen (ls l) p = true /\ hsink (ls l) p = Some k).
+Check (C11_hs_events_only_for_held_substreams :
+  forall (h : HSModel.hs) (ord : list HSModel.key) (h' : HSModel.hs) (k : HSModel.key),
+    (exists rd, HSModel.poll h ord = (h', HSModel.PNeg k rd)) \/ HSModel.poll h ord = (h', HSModel.PErr k) ->
+    HSModel.has k h = true).
+Check (C11_hs_negotiated_hands_out :
+  forall (h : HSModel.hs) (ord : list HSModel.key) (h' : HSModel.hs) (k : HSModel.key) (rd : bool),
+    HSModel.poll h ord = (h', HSModel.PNeg k rd) -> HSModel.has k h' = false).
+Check (C11_hs_error_keeps_substream :
+  forall (h : HSModel.hs) (ord : list HSModel.key) (h' : HSModel.hs) (k : HSModel.key),
+    HSModel.poll h ord = (h', HSModel.PErr k) -> HSModel.has k h' = true).
+Check (C11_hs_timeout_fails :
+  forall (e : HSModel.hent), HSModel.e_timed e = true -> HSModel.visit1 e = HSModel.VErr).
+Check (C11_hs_keys_unique :
+  forall (h : HSModel.hs) (o : HSModel.hop),
+    HSProofs.uniq (HSModel.ents h) -> HSProofs.uniq (HSModel.ents (fst (HSModel.hstep h o)))).
+Check (C11_hs_removed_is_silent :
+  forall (h : HSModel.hs) (ord : list HSModel.key) (h' : HSModel.hs) (k : HSModel.key),
+    HSModel.has k h = false -> (forall rd, ~ In (k, rd) (HSModel.ready h)) ->
+    (forall rd, HSModel.poll h ord <> (h', HSModel.PNeg k rd)) /\ HSModel.poll h ord <> (h', HSModel.PErr k)).
+Check (C11_hs_stale_ready_refuted :
+  map snd (HSModel.hrun HSModel.hs0 HSProofs.w_stale) =
+  [HSModel.PPending; HSModel.PPending; HSModel.PPending; HSModel.PPending; HSModel.PErr 1;
+   HSModel.PPending; HSModel.PPending; HSModel.PPending; HSModel.PNeg 0 true]).
